@@ -24,6 +24,47 @@ NOT_DECIDED = ["which generation's value a racing read returns (schedule-level)"
 ASSUMPTIONS = ["ExtentReadGuard borrows the record's extent_state (lifetime witness in the thorough tier / C20)"]
 
 
+def check_reader_count(ctx, inst):
+    """the reader count of an extent is balanced: it is incremented only by acquire_extent, only while the retired bit is
+    clear, every installed increment hands out a guard, a refused acquire leaves the count untouched, and dropping the guard
+    takes exactly one reader off. (C08: retirement waits for exactly the readers inside the extent; C18: a count that can only
+    go up - a phantom reader - makes retirement, and with it flush(), wait forever.)"""
+    b = ctx.fn("Record::acquire_extent", inst)
+    if b is not None:
+        cas = ctx.sites(b, R.call("Atomic::compare_exchange_weak", "Atomic::compare_exchange"), inst, exact=1)
+        def retired(e):
+            return e.k == "bin" and e.extra == "Eq" and any(x.k == "bin" and x.extra == "BitAnd" for x in e.walk()) and e.has_const(name="EXTENT_RETIRED")
+        sws = A.pred_switches(b, retired)
+        ctx.check(len(sws) == 1, inst, "PIN", b.path, "the retired bit is tested", None)
+        # canonical Eq(state & RETIRED, 0): true => not retired
+        R.guard(ctx, inst, b, cas, A.pred_edges(b, retired, "true"), "the reader count is incremented only while the retired bit is clear")
+        somes = [n.id for n in b.nodes if n.kind == "assign" and not n.ev["dst"]["p"] and n.ev["dst"]["l"] == 0 and n.ev["rv"] == "agg" and n.ev.get("var") == "Some"]
+        R.guard(ctx, inst, b, somes, R.guard_edges_for_call(b, cas, "Ok"), "a guard is handed out only after the increment was installed")
+        for c in cas:
+            new = R.arg_expr(b, b.nodes[c], 2)
+            ctx.check(new.k == "bin" and new.extra == "Add" and new.has_const(val=1), inst, "PIN", b.path, "the increment is +1 on the observed state", b.where(c), {"expr": new.show()})
+            ctx.check(R.recv_expr(b, b.nodes[c]).has_field("Record", "extent_state"), inst, "PIN", b.path, "on Record.extent_state", b.where(c))
+        for (sw, l) in A.pred_edges(b, retired, "false"):
+            r, ps = A.reach(b, edge_targets(b, sw, l))
+            ctx.check(not any(x in r for x in cas + somes), inst, "GUARD", b.path, "a retired extent yields None without touching the count", b.where(sw))
+        # whatever the primitive: an unconditional read-modify-write of the state is an installed increment, and no refusal
+        # (None) may follow it - the caller gets no guard, so nobody would ever take that reader off again
+        nones = [n.id for n in b.nodes if n.kind == "assign" and not n.ev["dst"]["p"] and n.ev["dst"]["l"] == 0 and n.ev["rv"] == "agg" and n.ev.get("var") == "None"]
+        for n in b.calls():
+            if any(call_matches(n.ev, "Atomic::" + op) for op in ("fetch_add", "fetch_or", "fetch_and", "fetch_sub", "fetch_xor", "swap", "store", "fetch_update")) and \
+                    R.recv_expr(b, n).has_field("Record", "extent_state"):
+                r, ps = A.reach(b, A.succs(b, n.id))
+                bad = [x for x in nones if x in r]
+                ctx.check(not bad, inst, "GUARD", b.path, "a change installed in the reader count is never followed by a refusal (the caller would get no guard to undo it)", b.where(n.id))
+    b = drop_impl(ctx, inst, "ExtentReadGuard")
+    if b is not None:
+        fs = ctx.sites(b, R.call("Atomic::fetch_sub"), inst, exact=1)
+        R.dom(ctx, inst, b, fs, b.return_nodes(), "dropping the guard always releases the pin", a_desc="fetch_sub(1)")
+        for f in fs:
+            a = b.nodes[f].ev["args"][1]
+            ctx.check(a.get("k") == "const" and a.get("val") == 1, inst, "PIN", b.path, "by exactly one", b.where(f))
+
+
 def check_pin(ctx):
     inst = "C08.pin"
     g = L.lock_graph(ctx.prog)
@@ -71,31 +112,7 @@ def check_pin(ctx):
             stale = any(_is_err(b, e, "StaleExtent") for e in errs)
             ctx.check(stale, inst, "PIN", b.path, "a failed identity check reports StaleExtent", b.where(sw))
         # the extent length read is the format's extent length of that record (C05.len sibling)
-    b = ctx.fn("Record::acquire_extent", inst)
-    if b is not None:
-        cas = ctx.sites(b, R.call("Atomic::compare_exchange_weak", "Atomic::compare_exchange"), inst, exact=1)
-        def retired(e):
-            return e.k == "bin" and e.extra == "Eq" and any(x.k == "bin" and x.extra == "BitAnd" for x in e.walk()) and e.has_const(name="EXTENT_RETIRED")
-        sws = A.pred_switches(b, retired)
-        ctx.check(len(sws) == 1, inst, "PIN", b.path, "the retired bit is tested", None)
-        # canonical Eq(state & RETIRED, 0): true => not retired
-        R.guard(ctx, inst, b, cas, A.pred_edges(b, retired, "true"), "the reader count is incremented only while the retired bit is clear")
-        somes = [n.id for n in b.nodes if n.kind == "assign" and not n.ev["dst"]["p"] and n.ev["dst"]["l"] == 0 and n.ev["rv"] == "agg" and n.ev.get("var") == "Some"]
-        R.guard(ctx, inst, b, somes, R.guard_edges_for_call(b, cas, "Ok"), "a guard is handed out only after the increment was installed")
-        for c in cas:
-            new = R.arg_expr(b, b.nodes[c], 2)
-            ctx.check(new.k == "bin" and new.extra == "Add" and new.has_const(val=1), inst, "PIN", b.path, "the increment is +1 on the observed state", b.where(c), {"expr": new.show()})
-            ctx.check(R.recv_expr(b, b.nodes[c]).has_field("Record", "extent_state"), inst, "PIN", b.path, "on Record.extent_state", b.where(c))
-        for (sw, l) in A.pred_edges(b, retired, "false"):
-            r, ps = A.reach(b, edge_targets(b, sw, l))
-            ctx.check(not any(x in r for x in cas + somes), inst, "GUARD", b.path, "a retired extent yields None without touching the count", b.where(sw))
-    b = drop_impl(ctx, inst, "ExtentReadGuard")
-    if b is not None:
-        fs = ctx.sites(b, R.call("Atomic::fetch_sub"), inst, exact=1)
-        R.dom(ctx, inst, b, fs, b.return_nodes(), "dropping the guard always releases the pin", a_desc="fetch_sub(1)")
-        for f in fs:
-            a = b.nodes[f].ev["args"][1]
-            ctx.check(a.get("k") == "const" and a.get("val") == 1, inst, "PIN", b.path, "by exactly one", b.where(f))
+    check_reader_count(ctx, inst)
     b = ctx.fn("Record::retire_extent", inst)
     if b is not None:
         fo = ctx.sites(b, R.call("Atomic::fetch_or"), inst, exact=1)
